@@ -17,7 +17,7 @@ fn bools(preds: &[TokenStream], truth: Truth) -> Vec<bool> {
 
 /// ecs_world!: __expand_ecs_world (collect predicates) + the cfg chain (supplies one bool per predicate, in
 /// collection order) + __impl_ecs_world (DataWorld::new). Returns the data and the predicates collected.
-pub fn world_data(raw: &str, truth: Truth) -> Result<(DataWorld, Vec<String>), String> {
+fn world_data_raw(raw: &str, truth: Truth) -> Result<(DataWorld, Vec<String>), String> {
     let ts: TokenStream = raw.parse().map_err(|e| format!("lex: {}", e))?;
     let parsed: ParseEcsWorld = syn::parse2(ts.clone()).map_err(|e| e.to_string())?;
     let preds = parsed.collect_all_cfg_predicates();
@@ -28,9 +28,43 @@ pub fn world_data(raw: &str, truth: Truth) -> Result<(DataWorld, Vec<String>), S
     Ok((data, preds.iter().map(|p| p.to_string()).collect()))
 }
 
+/// A proc macro that panics is a compile error for the user: every call into the real macro code goes through this, so that a
+/// panic becomes a rejection ("proc macro panicked: ..") the oracles compare with the reference, instead of killing the engine.
+fn caught<T>(what: &str, f: impl FnOnce() -> Result<T, String>) -> Result<T, String> {
+    match std::panic::catch_unwind(std::panic::AssertUnwindSafe(f)) {
+        Ok(r) => r,
+        Err(p) => {
+            let m = p.downcast_ref::<&str>().map(|s| s.to_string()).or_else(|| p.downcast_ref::<String>().cloned()).unwrap_or_default();
+            Err(format!("proc macro panicked in {}: {}", what, m))
+        }
+    }
+}
+
+pub fn world_data(raw: &str, truth: Truth) -> Result<(DataWorld, Vec<String>), String> {
+    caught("ecs_world! (parse / DataWorld::new)", || world_data_raw(raw, truth))
+}
+
+pub fn query_tokens(mac: Mac, world_b64: &str, params: &str, truth: Truth) -> Result<TokenStream, String> {
+    caught(mac.name(), || query_tokens_raw(mac, world_b64, params, truth))
+}
+
+/// `generate_world` (which embeds the serialised world data for the query macros), caught.
+pub fn gen_world(data: &DataWorld, raw: &str) -> Result<TokenStream, String> {
+    caught("ecs_world! (generate_world)", || Ok(generate::generate_world(data, raw)))
+}
+
+/// Serialisation of the world data as the query macros receive it, and back: (text, archetype/component ids read back).
+pub fn b64_roundtrip(data: &DataWorld) -> Result<(String, DataWorld), String> {
+    caught("world data serialisation", || {
+        let t = data.to_base64();
+        let back = DataWorld::from_base64(&t);
+        Ok((t, back))
+    })
+}
+
 pub fn world_tokens(raw: &str, truth: Truth) -> Result<TokenStream, String> {
     let (data, _) = world_data(raw, truth)?;
-    Ok(generate::generate_world(&data, raw))
+    gen_world(&data, raw)
 }
 
 #[derive(Clone, Copy, Debug, PartialEq, Eq, Hash, PartialOrd, Ord, serde::Serialize)]
@@ -60,7 +94,7 @@ impl Mac {
 }
 
 /// One query macro: `params` is the text between the bars, e.g. `p0: &Ca, #[cfg(p1)] p1: &mut Cb`.
-pub fn query_tokens(mac: Mac, world_b64: &str, params: &str, truth: Truth) -> Result<TokenStream, String> {
+fn query_tokens_raw(mac: Mac, world_b64: &str, params: &str, truth: Truth) -> Result<TokenStream, String> {
     let raw = if mac.is_find() {
         format!("\"{}\", world, entity, |{}| {{ body() }}", world_b64, params)
     } else {
